@@ -95,3 +95,127 @@ Definition nontrivial02 (c : caseRecv) : bool :=
 Definition run_recv_counted (holds nontrivial : caseRecv -> bool) (cs : list caseRecv) : string :=
   (run_recv holds cs ++ "#" ++ N_to_string (N.of_nat (List.length (filter nontrivial cs))))%string.
 
+
+(** ** C03 on the implementation's errors for receivers parsed from a meta item: every leaf is
+    spanned; the span lies inside the input item, equals the range of some node of the input
+    (never a made-up coarser range), and - when the leaf is located under a name - lies inside a
+    top-level item with that name. *)
+Fixpoint expr_spans (e : expr) : list span :=
+  match e with
+  | ELit i _ | EOther i _ => [i_span i]
+  | EGroup i g => i_span i :: expr_spans g
+  | EPath i p => [i_span i; i_span (p_info p)]
+  | EArray i es => i_span i :: flat_map expr_spans es
+  end.
+
+Fixpoint node_spans (n : nested) : list span :=
+  match n with
+  | NLit i _ => [i_span i]
+  | NPath i p => [i_span i; i_span (p_info p)]
+  | NList i p ti items => i_span i :: i_span (p_info p) :: i_span ti :: flat_map node_spans items
+  | NBadList i p ti es _ => [i_span i; i_span (p_info p); i_span ti; es]
+  | NNameValue i p e => i_span i :: i_span (p_info p) :: expr_spans e
+  end.
+
+(** "name" or "name[3]" -> "name" *)
+Fixpoint before_bracket (s : string) : string :=
+  match s with
+  | EmptyString => EmptyString
+  | String c r => if Ascii.eqb c "["%char then EmptyString else String c (before_bracket r)
+  end.
+Fixpoint before_slash (s : string) : string :=
+  match s with
+  | EmptyString => EmptyString
+  | String c r => if Ascii.eqb c "/"%char then EmptyString else String c (before_slash r)
+  end.
+
+Definition top_items (n : nested) : list nested :=
+  match n with NList _ _ _ items => items | _ => [] end.
+
+Definition leaf_span_ok (input : nested) (l : string * option string * option span) : bool :=
+  let '(_, locs, sp) := l in
+  match sp with
+  | None => false
+  | Some s =>
+      span_inside s (i_span (ninfo input))
+      && existsb (span_eqb s) (node_spans input)
+      && match locs with
+         | None => true
+         | Some path =>
+             let first := before_bracket (before_slash path) in
+             let named := filter (fun it => str_eqb (Spec.C01.item_name it) first) (top_items input) in
+             match named with
+             | [] => true                      (* located under a name that is not written (e.g. missing nested item) *)
+             | _ => existsb (fun it => span_inside s (i_span (ninfo it))) named
+             end
+         end
+  end.
+
+Definition holds03 (c : caseRecv) : bool :=
+  match rc_entry c, rc_obs c with
+  | EMeta, CErr o => forallb (leaf_span_ok (rc_input c)) (obs_leaves None None o)
+  | _, _ => true
+  end.
+Definition nontrivial03 (c : caseRecv) : bool :=
+  match rc_entry c, rc_obs c with EMeta, CErr _ => true | _, _ => false end.
+
+(** ** C09: enum receivers: the specification's verdict, and never a skipped variant *)
+Definition produced_variant_ok (c : caseRecv) : bool :=
+  match rc_ty c, rc_obs c with
+  | TEnumR _ _ vs, COk (VVariant id _) =>
+      existsb (fun v => str_eqb (vi_ident (fst v)) id && negb (vi_skip (fst v))) vs
+  | TEnumR _ _ _, COk _ => false
+  | _, _ => true
+  end.
+Definition holds09 (c : caseRecv) : bool := holds02 c && produced_variant_ok c.
+Definition nontrivial09 (c : caseRecv) : bool :=
+  match rc_ty c with TEnumR _ _ _ => true | _ => false end.
+
+(** ** C17: for an unknown name given directly to a struct receiver (no flatten), the reported
+    suggestion is the first best candidate above the threshold among the addressable names -
+    written as an argmax, not as the implementation's running update. *)
+Definition best_match (sim : string -> string -> N) (u : string) (cands : list string) : option string :=
+  let above := filter (fun c => N.ltb threshold (sim u c)) cands in
+  let best := fold_right N.max 0%N (map (sim u) above) in
+  find (fun c => N.eqb (sim u c) best) above.
+
+Definition unknown_msg (u : string) (s : option string) : string :=
+  match s with
+  | Some x => "Unknown field: `" ++ u ++ "`. Did you mean `" ++ x ++ "`?"
+  | None => "Unknown field: `" ++ u ++ "`"
+  end.
+
+Definition holds17 (c : caseRecv) : bool :=
+  match rc_entry c, rc_ty c, rc_input c, rc_obs c with
+  | EMeta, TStructR ci fs, NList _ _ _ items, CErr o =>
+      let all_fs := map fst fs in
+      if (existsb fi_flatten all_fs || ci_auk ci)%bool then true
+      else
+        let cands := map fi_name (filter (fun f => negb (fi_skip f || fi_flatten f)) all_fs) in
+        let unknown :=
+          filter (fun it => negb (Spec.C01.is_literal it)
+                            && negb (existsb (str_eqb (Spec.C01.item_name it)) cands)) items in
+        let bodies := map (fun l => fst (fst l)) (filter (fun l => match snd (fst l) with None => true | _ => false end)
+                                                           (obs_leaves None None o)) in
+        forallb (fun it =>
+                   let u := Spec.C01.item_name it in
+                   let want := unknown_msg u (if rc_sugg c then best_match (sim_of (rc_sim c)) u cands else None) in
+                   existsb (str_eqb want) bodies) unknown
+        (* and no suggestion ever names something that is not a candidate: every unlocated
+           unknown-field leaf is one of the expected messages *)
+        && forallb (fun b =>
+                      if String.prefix "Unknown field: `" b
+                      then existsb (fun it =>
+                                      let u := Spec.C01.item_name it in
+                                      str_eqb b (unknown_msg u (if rc_sugg c then best_match (sim_of (rc_sim c)) u cands else None)))
+                                   unknown
+                      else true) bodies
+  | _, _, _, _ => true
+  end.
+Definition nontrivial17 (c : caseRecv) : bool :=
+  match rc_entry c, rc_ty c, rc_input c, rc_obs c with
+  | EMeta, TStructR ci fs, NList _ _ _ items, CErr o =>
+      negb (existsb fi_flatten (map fst fs) || ci_auk ci)
+      && existsb (fun l => String.prefix "Unknown field: `" (fst (fst l))) (obs_leaves None None o)
+  | _, _, _, _ => false
+  end.
